@@ -12,6 +12,7 @@
 import Y0.Lemmas.Closure
 import Y0.Lemmas.Moral
 import Y0.Lemmas.Topo
+import Y0.Lemmas.Paths
 
 namespace Y0.MG
 variable {α : Type} [DecidableEq α]
@@ -677,6 +678,98 @@ theorem pre_explicit_spec (G : MG α) (S : List α) (a : α) (os : List α) :
     ∀ v, v ∈ preOf (a :: os) S ↔
       v ∈ a :: os ∧ ∀ s ∈ S, s ∈ a :: os → (a :: os).idxOf v < (a :: os).idxOf s :=
   ⟨rfl, fun v => mem_preOf_iff (a :: os) S v⟩
+
+/-! ## 15. `get_nodes_in_directed_paths`: the nodes on simple directed paths from `S` to `T`
+
+`G.OnSimpleDiPath k S T v` (Spec/GraphSpec.lean): `v` lies on a simple directed path with at least `k` nodes from a
+member of `S` to a member of `T`.  The implementation for acyclic graphs (transitive closure) realises `k = 2`
+(paths with at least one edge), the one for cyclic graphs (`nx.all_simple_paths`) realises `k = 1`: it also
+returns the members of `S ∩ T`, as trivial paths (`onSimpleDiPath_one_iff`).  Arguments that are not nodes are
+ignored by the acyclic branch and raise `NodeNotFound` in the cyclic one. -/
+
+/-- acyclic branch: never fails, and returns the nodes on directed paths with at least one edge -/
+theorem nodesInDirectedPaths_dag_spec (G : MG α) (hG : G.WF) (hA : G.Acyclic) (S T : List α) :
+    ∃ R, G.nodesInDirectedPaths S T = .ok R ∧ ∀ v, v ∈ R ↔ G.OnSimpleDiPath 2 S T v := by
+  refine ⟨G.nodesInDirectedPathsDag S T, by simp [nodesInDirectedPaths, (isAcyclic_iff G hG).2 hA], fun v => ?_⟩
+  rw [mem_nodesInDirectedPathsDag G hG]
+  constructor
+  · rintro ⟨s, hs, t, ht, p, hp, hl, hv⟩
+    exact ⟨s, hs, t, ht, p, hp, hp.nodup_of_acyclic hA, hl, hv⟩
+  · rintro ⟨s, hs, t, ht, p, hp, _, hl, hv⟩
+    exact ⟨s, hs, t, ht, p, hp, hl, hv⟩
+
+/-- cyclic branch: when one argument is empty or all arguments are nodes, returns the nodes on simple directed
+paths, trivial paths included -/
+theorem nodesInDirectedPaths_cyclic_spec (G : MG α) (hG : G.WF) (hA : ¬ G.Acyclic) (S T : List α)
+    (h : S = [] ∨ T = [] ∨ ((∀ s ∈ S, s ∈ G.nodes) ∧ ∀ t ∈ T, t ∈ G.nodes)) :
+    ∃ R, G.nodesInDirectedPaths S T = .ok R ∧ ∀ v, v ∈ R ↔ G.OnSimpleDiPath 1 S T v := by
+  obtain ⟨R, hR, hmem⟩ := nodesInDirectedPathsCyclic_ok G hG S T h
+  have hac : G.isAcyclic = false := by
+    rw [← Bool.not_eq_true, isAcyclic_iff G hG]; exact hA
+  refine ⟨R, by simp [nodesInDirectedPaths, hac, hR], fun v => ?_⟩
+  rw [hmem]
+  constructor
+  · rintro ⟨s, hs, t, ht, p, hp, hn, hv⟩
+    refine ⟨s, hs, t, ht, p, hp, hn, ?_, hv⟩
+    obtain ⟨p', rfl⟩ := hp.eq_cons
+    simp
+  · rintro ⟨s, hs, t, ht, p, hp, hn, _, hv⟩
+    exact ⟨s, hs, t, ht, p, hp, hn, hv⟩
+
+/-- cyclic branch: the only failure is an argument that is not a node while both sets are non-empty -/
+theorem nodesInDirectedPaths_cyclic_error (G : MG α) (hG : G.WF) (hA : ¬ G.Acyclic) (S T : List α)
+    (hS : S ≠ []) (hT : T ≠ []) (h : ¬ ((∀ s ∈ S, s ∈ G.nodes) ∧ ∀ t ∈ T, t ∈ G.nodes)) :
+    G.nodesInDirectedPaths S T = .error (.internal "NodeNotFound") := by
+  have hac : G.isAcyclic = false := by
+    rw [← Bool.not_eq_true, isAcyclic_iff G hG]; exact hA
+  simp [nodesInDirectedPaths, hac, nodesInDirectedPathsCyclic_error G S T hS hT h]
+
+/-- both branches at once: whatever the function returns is the set of nodes on simple directed paths from `S`
+to `T`; trivial paths count exactly when the graph has a directed cycle -/
+theorem nodesInDirectedPaths_spec (G : MG α) (hG : G.WF) (S T R : List α)
+    (h : G.nodesInDirectedPaths S T = .ok R) (v : α) :
+    (G.Acyclic → (v ∈ R ↔ G.OnSimpleDiPath 2 S T v)) ∧ (¬ G.Acyclic → (v ∈ R ↔ G.OnSimpleDiPath 1 S T v)) := by
+  constructor
+  · intro hA
+    obtain ⟨R', hR', hmem⟩ := nodesInDirectedPaths_dag_spec G hG hA S T
+    rw [h] at hR'; cases hR'; exact hmem v
+  · intro hA
+    by_cases hargs : S = [] ∨ T = [] ∨ ((∀ s ∈ S, s ∈ G.nodes) ∧ ∀ t ∈ T, t ∈ G.nodes)
+    · obtain ⟨R', hR', hmem⟩ := nodesInDirectedPaths_cyclic_spec G hG hA S T hargs
+      rw [h] at hR'; cases hR'; exact hmem v
+    · simp only [not_or] at hargs
+      rw [nodesInDirectedPaths_cyclic_error G hG hA S T hargs.1 hargs.2.1 hargs.2.2] at h
+      cases h
+
+omit [DecidableEq α] in
+/-- the two readings differ exactly by the members of `S ∩ T` -/
+theorem onSimpleDiPath_one_iff (G : MG α) (S T : List α) (v : α) :
+    G.OnSimpleDiPath 1 S T v ↔ G.OnSimpleDiPath 2 S T v ∨ (v ∈ S ∧ v ∈ T) := by
+  constructor
+  · rintro ⟨s, hs, t, ht, p, hp, hn, _, hv⟩
+    by_cases hl : 2 ≤ p.length
+    · exact Or.inl ⟨s, hs, t, ht, p, hp, hn, hl, hv⟩
+    · obtain ⟨p', rfl⟩ := hp.eq_cons
+      have : p' = [] := List.eq_nil_of_length_eq_zero (by simp only [List.length_cons] at hl; omega)
+      subst this
+      obtain ⟨_, rfl⟩ := hp.singleton_eq
+      simp only [List.mem_singleton] at hv
+      subst hv
+      exact Or.inr ⟨hs, ht⟩
+  · rintro (⟨s, hs, t, ht, p, hp, hn, hl, hv⟩ | ⟨hs, ht⟩)
+    · exact ⟨s, hs, t, ht, p, hp, hn, by omega, hv⟩
+    · exact ⟨v, hs, v, ht, [v], .single v, by simp, by simp, by simp⟩
+
+/-- the closure form of the acyclic reading: `v` lies between some `s ∈ S` and `t ∈ T` with `s ≠ t` reachable -/
+theorem onSimpleDiPath_two_iff (G : MG α) (hA : G.Acyclic) (S T : List α) (v : α) :
+    G.OnSimpleDiPath 2 S T v ↔ ∃ s ∈ S, ∃ t ∈ T, TransGen G.DiEdge s t ∧
+      ReflTransGen G.DiEdge s v ∧ ReflTransGen G.DiEdge v t := by
+  constructor
+  · rintro ⟨s, hs, t, ht, p, hp, _, hl, hv⟩
+    exact ⟨s, hs, t, ht, (onWalk_iff G s t v).1 ⟨p, hp, hl, hv⟩⟩
+  · rintro ⟨s, hs, t, ht, h⟩
+    obtain ⟨p, hp, hl, hv⟩ := (onWalk_iff G s t v).2 h
+    exact ⟨s, hs, t, ht, p, hp, hp.nodup_of_acyclic hA, hl, hv⟩
 
 /-! ## non-vacuity: a 5-node graph with an isolated node (4) and a node touched only by a
 bidirected edge (3) satisfies `WF`, and the operations return what the theorems say -/
